@@ -238,10 +238,12 @@ func init() {
 		ID:    "C10",
 		Units: serveUnits,
 		Runs: []Run{
-			{Pkg: "fasthttp", Func: "vhC10Persistence", Quick: map[string]int{"requests": 2}, Thorough: map[string]int{"requests": 3}},
+			{Pkg: "fasthttp", Func: "vhC10Persistence", Quick: map[string]int{"requests": 2}, Thorough: map[string]int{"requests": 3}, PathCap: 1500000},
+			{Pkg: "fasthttp", Func: "vhC04Sequential", Quick: map[string]int{"calls": 2}, Thorough: map[string]int{"calls": 3}, PathCap: 1500000},
 		},
 		Assume: []string{serveAssume,
-			"server half only: up to `requests` requests drawn from {HTTP/1.1, HTTP/1.1 close, HTTP/1.0, HTTP/1.0 keep-alive, POST with body} × DisableKeepalive × MaxRequestsPerConn ∈ {0,1} × handler SetConnectionClose position, followed by a sentinel request that is answered only if the connection is still open; responses are split by an independent minimal reader; CloseOnShutdown and the client's reuse decision are outside this check",
+			"server half: up to `requests` requests drawn from {HTTP/1.1, HTTP/1.1 close, HTTP/1.0, HTTP/1.0 keep-alive, POST with body} × DisableKeepalive × MaxRequestsPerConn ∈ {0,1} × handler SetConnectionClose position, followed by a sentinel request that is answered only if the connection is still open; MaxRequestsPerConn ∈ {0,1,2}, ReduceMemoryUsage on/off, and a handler that calls TimeoutError at one position; responses are split by an independent minimal reader; CloseOnShutdown is outside this check",
+			"client half (vhC04Sequential): " + clientAssume + "; 2/3 sequential calls, responses that say close (or requests that do) must leave the connection closed and never reused, with and without StreamResponseBody",
 		},
 	})
 	register(&Property{
@@ -337,6 +339,20 @@ func init() {
 		Assume: []string{
 			"input family: one of 12 (round trip) / 9 (net/url) prefixes covering scheme spellings, empty and non-empty hosts, userinfo, an IPv6 literal, a port, and positions inside path / query / fragment / a percent escape, followed by ≤ tailLen arbitrary bytes; the property's own exclusion (decoded host contains '%') is assumed",
 			"net/url.Parse is interpreted from the standard library's own SSA on the same symbolic input (no model of it); longer free tails, userinfo serialisation (FullURI does not emit it) and DisablePathNormalizing are outside this check",
+		},
+	})
+}
+
+func init() {
+	register(&Property{
+		ID:    "C04",
+		Units: clientUnits,
+		Runs: []Run{
+			{Pkg: "fasthttp", Func: "vhC04Sequential", Quick: map[string]int{"calls": 2}, Thorough: map[string]int{"calls": 3}, PathCap: 1500000},
+		},
+		Assume: []string{clientAssume,
+			"sequential calls only (2 quick / 3 thorough GETs through one HostClient, default MaxConns): each connection answers the j-th request written on it with the j-th response of its script; response kinds {Content-Length keep-alive, Content-Length + Connection: close, chunked, chunked whose single chunk continues with bytes that spell a complete response}, each carrying two arbitrary tag bytes; delivered in one read or split after the first two body bytes; StreamResponseBody on/off with the caller reading none / 2 bytes / all of the stream before closing it; request Connection: close on/off",
+			"concurrent calls, PipelineClient, timeouts racing the response, and servers that close mid-response are outside this check",
 		},
 	})
 }
